@@ -1,10 +1,15 @@
-"""Wall-clock watchdog for calls into the library (termination is part of some properties)."""
+"""Watchdog for calls into the library (termination is part of some properties).
+
+The budget is *CPU time of this process* (ITIMER_VIRTUAL): a call that loops forever burns CPU and is
+stopped after `seconds`, while a machine that is busy with other work (16 TLC processes, a parallel run
+of another check) cannot make a fast call look like a hang.  A generous wall-clock timer backs it up
+for calls that block without using CPU."""
 from __future__ import annotations
 
 import signal
 
 
-class Timeout(Exception):
+class Timeout(BaseException):
     pass
 
 
@@ -14,8 +19,10 @@ def _handler(signum, frame):
 
 def call(fn, seconds: float = 2.0):
     """Returns ("ok", value) | ("timeout", None) | ("raise", exception)."""
-    old = signal.signal(signal.SIGALRM, _handler)
-    signal.setitimer(signal.ITIMER_REAL, seconds)
+    old_v = signal.signal(signal.SIGVTALRM, _handler)
+    old_r = signal.signal(signal.SIGALRM, _handler)
+    signal.setitimer(signal.ITIMER_VIRTUAL, seconds)
+    signal.setitimer(signal.ITIMER_REAL, max(60.0, 30 * seconds))
     try:
         return "ok", fn()
     except Timeout:
@@ -25,5 +32,7 @@ def call(fn, seconds: float = 2.0):
     except Exception as ex:  # noqa: BLE001
         return "raise", ex
     finally:
+        signal.setitimer(signal.ITIMER_VIRTUAL, 0)
         signal.setitimer(signal.ITIMER_REAL, 0)
-        signal.signal(signal.SIGALRM, old)
+        signal.signal(signal.SIGVTALRM, old_v)
+        signal.signal(signal.SIGALRM, old_r)
